@@ -248,6 +248,13 @@ def forms(kind, xs, S):
             add("group", "%s group %d" % (S, k), E([Seq(K, c) for c in chunks]) if k > 0 else RAISE)
             add("group'", "%s group' %d" % (S, k), (E([Seq(K, c) for c in chunks]) if n % k == 0 else RAISE) if k > 0 else RAISE)
             add("window", "%s window %d" % (S, k), E([Seq(K, xs[i:i + k]) for i in range(0, n - k + 1)]) if k > 0 else RAISE)
+        # a count is a value, not a representation: 2 held as a big integer (arithmetic never re-normalises)
+        B2 = "((2^70+2)-2^70)"
+        add("group", "%s group %s" % (S, B2), E([Seq(K, xs[i:i + 2]) for i in range(0, n, 2)]))
+        add("window", "%s window %s" % (S, B2), E([Seq(K, xs[i:i + 2]) for i in range(0, n - 1)]))
+        add("**", "%s ** %s" % (S, B2), E(list(xs) * 2))
+        add("combinations", "list(combinations(%s, %s))" % (S, B2), E([list(c) for c in itertools.combinations(xs, 2)]))
+        add("^^", "list(%s ^^ %s)" % (S, B2), E([[a, b] for a in xs for b in xs]))
         add("prefixes", "prefixes(%s)" % S, E([Seq(K, xs[:i]) for i in range(n + 1)]))
         add("suffixes", "suffixes(%s)" % S, E([Seq(K, xs[n - i:]) for i in range(n + 1)]))
         add("pairwise", "%s pairwise (..)" % S, E([[a, b] for a, b in zip(xs, xs[1:])]))
@@ -268,6 +275,17 @@ def forms(kind, xs, S):
         add("ziplongest", "%s ziplongest [7, 8]" % S, E([[v for v in t if v is not NOPE] for t in itertools.zip_longest(xs, other, fillvalue=NOPE)]))
         add("ziplongest", "%s ziplongest [7, 8] with (..)" % S,
             E([(t[0] if t[1] is NOPE else (t[1] if t[0] is NOPE else [t[0], t[1]])) for t in itertools.zip_longest(xs, other, fillvalue=NOPE)]))
+        # three sequences of unequal lengths in every argument position: batches keep the argument order of the survivors
+        for pos, (srcs, lists) in enumerate([(("%s", "[7, 8]", "[9]"), (None, [7, 8], [9])), (("[9]", "%s", "[7, 8]"), ([9], None, [7, 8])),
+                                             (("[7]", "[8, 9, 6]", "%s"), ([7], [8, 9, 6], None))]):
+            call = ", ".join(t % S if "%s" in t else t for t in srcs)
+            cols = [list(xs) if l is None else l for l in lists]
+            batches = [[v for v in t if v is not NOPE] for t in itertools.zip_longest(*cols, fillvalue=NOPE)]
+            add("ziplongest", "ziplongest(%s)" % call, E(batches))
+            add("ziplongest", "ziplongest(%s, (..))" % call, E([functools.reduce(lambda a, b: [a, b], bt) for bt in batches]))
+            add("zip", "zip(%s)" % call, E([list(t) for t in zip(*cols)]))
+            add("zip", "zip(%s, \\a, b, c -> [c, a, b])" % call, E([[t[2], t[0], t[1]] for t in zip(*cols)]))
+            add("transpose", "transpose([%s])" % call, E(batches))
         add("zip", "%s zip %s" % (S, S), E([[a, a] for a in xs]))
         # --- constructors
         add(".+", "5 .+ %s" % S, E([5] + list(xs)) if kind in ("list",) else None)
